@@ -4,6 +4,7 @@ CONSTANTS
   Threads <- JThreads
   Thr = 2
   Tol = 2
+  Fresh = TRUE
   Credits <- JNone
   Pays <- JNone
   Reserves <- JNone
